@@ -593,3 +593,86 @@ Proof.
   - intros idx H. split; [apply flatten_lt|apply unflatten_flatten]; exact H.
   - intros k H. split; [apply unflatten_in_range|apply flatten_unflatten]; exact H.
 Qed.
+
+(* ---------------------------------------------------------------- run-length encoded rows: the weighted spec IS the spec *)
+Lemma qz_add (a b : Z) : qz (a + b) = qz a + qz b.
+Proof.
+  unfold qz. apply Qc_is_canon. unfold Qcplus, Q2Qc. cbn [this].
+  rewrite !Qred_correct, inject_Z_plus. reflexivity.
+Qed.
+Lemma qz_1 : qz 1 = 1. Proof. apply Qc_is_canon. reflexivity. Qed.
+Lemma qz_0 : qz 0 = 0. Proof. apply Qc_is_canon. reflexivity. Qed.
+
+Lemma qsum_map_repeat {A} (f : A -> Qc) (v : A) (k : nat) : qsum (map f (repeat v k)) = qz (Z.of_nat k) * f v.
+Proof.
+  induction k as [|k IH].
+  - cbn [repeat map]. rewrite qsum_nil. change (Z.of_nat 0) with 0%Z. rewrite qz_0. ring.
+  - cbn [repeat map]. rewrite qsum_cons, IH, Nat2Z.inj_succ. unfold Z.succ. rewrite qz_add, qz_1. ring.
+Qed.
+
+Lemma qlen_repeat {A} (v : A) (k : nat) : qlen (repeat v k) = qz (Z.of_nat k).
+Proof.
+  induction k as [|k IH].
+  - cbn [repeat]. rewrite qlen_nil. change (Z.of_nat 0) with 0%Z. rewrite qz_0. reflexivity.
+  - cbn [repeat]. rewrite qlen_cons, IH, Nat2Z.inj_succ. unfold Z.succ. rewrite qz_add, qz_1. reflexivity.
+Qed.
+
+Lemma qsum_map_expand {A} (f : A -> Qc) (wl : list (A * positive)) : qsum (map f (expand wl)) = wsum f wl.
+Proof.
+  unfold expand, wsum. induction wl as [|[v c] wl IH]; [reflexivity|].
+  cbn [flat_map map fst snd]. rewrite map_app, qsum_app, qsum_cons, IH, qsum_map_repeat.
+  unfold qpos. rewrite positive_nat_Z. reflexivity.
+Qed.
+
+Lemma qlen_expand {A} (wl : list (A * positive)) : qlen (expand wl) = wlen wl.
+Proof.
+  unfold expand, wlen, wsum. induction wl as [|[v c] wl IH]; [reflexivity|].
+  cbn [flat_map map fst snd]. rewrite qlen_app, qsum_cons, IH, qlen_repeat.
+  unfold qpos. rewrite positive_nat_Z. ring.
+Qed.
+
+Theorem pearson_w_expand (wl : list (obs * positive)) : pearson_w wl = pearson (expand wl).
+Proof.
+  unfold pearson, pearson_w, scd, ssd, qmean. cbv zeta.
+  rewrite !map_map, !qlen_map, !qsum_map_expand, !qlen_expand. reflexivity.
+Qed.
+
+Lemma filter_repeat {A} (f : A -> bool) (v : A) (k : nat) : filter f (repeat v k) = if f v then repeat v k else [].
+Proof.
+  induction k as [|k IH]; cbn [repeat filter]; [destruct (f v); reflexivity|].
+  rewrite IH. destruct (f v); reflexivity.
+Qed.
+
+Lemma filter_expand {A} (f : A -> bool) (wl : list (A * positive)) :
+  filter f (expand wl) = expand (filter (fun p => f (fst p)) wl).
+Proof.
+  unfold expand. induction wl as [|[v c] wl IH]; [reflexivity|].
+  cbn [flat_map filter fst snd]. rewrite filter_app, IH, filter_repeat.
+  destruct (f v); reflexivity.
+Qed.
+
+Lemma expand_nil_iff {A} (wl : list (A * positive)) : expand wl = [] <-> wl = [].
+Proof.
+  split; [|intros ->; reflexivity].
+  destruct wl as [|[v c] wl]; [reflexivity|]. unfold expand. cbn [flat_map fst snd].
+  destruct (Pos2Nat.is_succ c) as [k ->]. discriminate.
+Qed.
+
+Lemma qmean_fst_expand {B} (wl : list ((Qc * B) * positive)) :
+  qmean (map fst (expand wl)) = wsum fst wl / wlen wl.
+Proof. unfold qmean. rewrite qlen_map, qsum_map_expand, qlen_expand. reflexivity. Qed.
+
+Theorem dpa_spec_w_expand (wl : list (dobs * positive)) : dpa_spec_w wl = dpa_spec (expand wl).
+Proof.
+  unfold dpa_spec, dpa_spec_w, ones, zeros, wones, wzeros.
+  rewrite !filter_expand. cbv beta.
+  set (O := filter (fun p : Qc * bool * positive => snd (fst p)) wl).
+  set (Z0 := filter (fun p : Qc * bool * positive => negb (snd (fst p))) wl).
+  destruct O as [|a o']; [reflexivity|].
+  destruct (map fst (expand (a :: o'))) as [|x xs] eqn:EX.
+  { exfalso. apply map_nil_iff in EX. apply expand_nil_iff in EX. discriminate. }
+  destruct Z0 as [|b z']; [reflexivity|].
+  destruct (map fst (expand (b :: z'))) as [|y ys] eqn:EY.
+  { exfalso. apply map_nil_iff in EY. apply expand_nil_iff in EY. discriminate. }
+  rewrite <- EX, <- EY, !qmean_fst_expand. reflexivity.
+Qed.
